@@ -175,18 +175,40 @@ def check_pipeline(case, out):
         seen_max = [0.0]
         orig_model = Rs[0].m.model
 
+        cond_seen = []
+
         def recording_model(*a, **k):
             r_ = orig_model(*a, **k)
             with np.errstate(all='ignore'):
                 v_ = np.asarray(r_[1], dtype=float)
                 if v_.size and np.any(np.isfinite(v_)):
                     seen_max[0] = max(seen_max[0], float(np.nanmax(np.abs(v_[np.isfinite(v_)]))))
+                if case.get('condensates'):
+                    cond_seen.append(np.array(Rs[0].m.chemistry.condensateMixProfile, dtype=float, copy=True))
             return r_
         Rs[0].m.model = recording_model
         single = cut(out, 'single-process', work, Rs[0])
         Rs[0].m.model = orig_model
         Rs[0].opt.sample_parameters = orig_sp
         massless = bool(drawn) and max(drawn) < 1e-290
+        # every sample of the requested sub-sample (the documented fraction of the stored samples) is processed, each once --
+        # whatever its weight
+        out.applies('sample-count')
+        want_n = int(len(wts) * 0.5)
+        if len(drawn) != want_n:
+            out.fail('sample-count@%s' % case['wkind'], '%d of the %d samples of the sub-sample were processed' % (len(drawn), want_n))
+        # the condensate profile's standard deviation against the two-pass weighted value of what was evaluated
+        if case.get('condensates') and not massless and not broken_first and len(cond_seen) == len(drawn) >= 2 and 'condensate_profile_std' in single[0]:
+            wv = np.array(drawn, dtype=float)
+            xs_ = np.array(cond_seen, dtype=float)
+            mean_ = np.tensordot(wv, xs_, axes=(0, 0)) / wv.sum()
+            var_ = np.tensordot(wv, (xs_ - mean_) ** 2, axes=(0, 0)) / wv.sum()
+            got_ = np.asarray(single[0]['condensate_profile_std'], dtype=float)
+            out.applies('condensate-std-two-pass')
+            pos_ = [x for x in drawn if x > 1e-290]
+            rt_ = 1e-5 if (pos_ and max(pos_) / min(pos_) > 1e6) else 1e-7
+            if got_.shape != var_.shape or not close(got_ ** 2, var_, rtol=rt_, atol=1e-12 * float(np.max(np.abs(xs_))) ** 2):
+                out.fail('condensate-std-two-pass', 'condensate std %s, two-pass weighted value %s' % (got_.ravel()[:2], np.sqrt(var_).ravel()[:2]))
         random.seed(4242)      # only rank 0 draws the sub-sample (and broadcasts it)
         with doubles.simulated_mpi(nr) as run:
             res = cut(out, 'ranks', run, lambda r: work(Rs[r + 1]))
